@@ -230,8 +230,8 @@ impl<'c, 's> Run<'c, 's> {
                 };
                 let lie = match err {
                     ErrKind::InvalidPec if !bad_pec => Some("InvalidPEC-but-pec-correct"),
-                    ErrKind::InvalidLen if !(p.control && !bad_header && dl_wrong) => Some("InvalidRequestDataLength-but-length-fine"),
-                    ErrKind::Cc(c) if !(p.control && !bad_header && !p.rq && b.len() >= 13 && p.cc == c && c != 0) => Some("completion-code-not-in-packet"),
+                    ErrKind::InvalidLen if !(p.control && dl_wrong) => Some("InvalidRequestDataLength-but-length-fine"),
+                    ErrKind::Cc(c) if !(p.control && !p.rq && b.len() >= 13 && p.cc == c && c != 0) => Some("completion-code-not-in-packet"),
                     _ => None,
                 };
                 if let Some(l) = lie {
@@ -294,7 +294,8 @@ impl<'c, 's> Run<'c, 's> {
 
     /// decode-only call on node `ni` (A7, snooping): must not change anything
     pub fn decode_only(&mut self, ni: usize, b: &[u8], fi: Option<usize>, cause: &'static str) -> Dec {
-        let d = real::decode(&self.nodes[ni].ctx, b);
+        let (off, end) = self.stage(ni, b, true);
+        let d = real::decode(&self.nodes[ni].ctx, &self.nodes[ni].rxbuf[off..end]);
         self.st.lib_calls += 1;
         if self.tracing() {
             self.tr(format!("   node{} decode_packet({} bytes) -> {}", ni, b.len(), d.show()));
@@ -349,10 +350,11 @@ impl<'c, 's> Run<'c, 's> {
         let own = self.nodes[ni].cfg.addr;
         self.ev("deliver", &[ni as u64, fi.map(|f| f as u64).unwrap_or(9999)], &b);
 
-        let d = real::decode(&self.nodes[ni].ctx, &b);
+        let (off, end) = self.stage(ni, &b, true);
+        let d = real::decode(&self.nodes[ni].ctx, &self.nodes[ni].rxbuf[off..end]);
         let (p, rlen) = {
             let node = &mut self.nodes[ni];
-            real::process(&node.ctx, &b, &mut node.resp)
+            real::process(&node.ctx, &node.rxbuf[off..end], &mut node.resp)
         };
         self.st.lib_calls += 2;
         if self.tracing() {
@@ -619,11 +621,16 @@ impl<'c, 's> Run<'c, 's> {
         if !(1..=6).contains(&cmd) || req[6] != req[3] >> 1 || req[3] & 1 != 1 {
             return;
         }
-        if cmd == 1 && (req.len() != 14 || !matches!(req[11], 0 | 1 | 3) || !(0x01..=0xFE).contains(&req[12])) {
+        // every request the library chose to answer is in scope; Set Endpoint ID only with the
+        // EIDs the property quantifies over
+        if cmd == 1 && (req.len() != 14 || !(0x01..=0xFE).contains(&req[12])) {
             return;
         }
-        if cmd == 6 && (req.len() != 13 || req[11] as usize >= n_sets) {
+        if cmd == 6 && req.len() != 13 {
             return;
+        }
+        if cmd == 6 && req[11] as usize >= n_sets {
+            self.st.probe("c12-out-of-range-selector-answered");
         }
         self.eval(Prop::C12, "C12/wire-response-vs-request");
         if req[9] & 0x1F != 0 {
@@ -891,8 +898,7 @@ impl<'c, 's> Run<'c, 's> {
 }
 
 fn real_len_ok(run: &mut Run, ni: usize, r: &[u8]) -> bool {
-    run.st.lib_calls += 1;
-    real::get_length(&run.nodes[ni].ctx, r) == Len::Ok(r.len())
+    run.get_length_staged(ni, r) == Len::Ok(r.len())
 }
 
 pub fn type_name(t: u8, rq: bool) -> &'static str {
